@@ -10,7 +10,7 @@ namespace Forest
 
 theorem splice_perm (l r ab nk : List HTree) (T : HTree) (hk : T.kids = ab ++ nk) :
     (handlesList (l ++ nk ++ r) ++ (T.handle :: handlesList ab)).Perm (handlesList (l ++ T :: r)) := by
-  simp only [handlesList_append, handlesList_cons, handles_eq T, hk, List.append_assoc, List.cons_append]
+  simp only [fi_handlesList_append, handlesList_cons, fi_handles_eq T, hk, List.append_assoc, List.cons_append]
   refine List.Perm.append_left _ ?_
   -- nk ++ (r ++ h :: ab)  ~  h :: (ab ++ nk ++ r)
   refine List.Perm.trans ?_ (List.Perm.cons _ (List.perm_append_comm (l₁ := handlesList nk ++ handlesList r) (l₂ := handlesList ab)))
@@ -28,9 +28,9 @@ theorem single_of_first_eq_last {F Lk : HTree} {nk' nk0 : List HTree} (h : F :: 
     obtain ⟨h1, h2⟩ := h
     subst h1
     rw [h2] at nd
-    simp only [handlesList_cons, handlesList_append, handlesList_nil, List.append_nil] at nd
-    have := (List.nodup_append.mp nd).2.2 F.handle (handle_mem_handles F) F.handle
-      (by simp only [List.mem_append]; right; rw [hh]; exact handle_mem_handles Lk)
+    simp only [handlesList_cons, fi_handlesList_append, handlesList_nil, List.append_nil] at nd
+    have := (List.nodup_append.mp nd).2.2 F.handle (fi_handle_mem_handles F) F.handle
+      (by simp only [List.mem_append]; right; rw [hh]; exact fi_handle_mem_handles Lk)
     exact this rfl
 
 /-- `element_unwrap` preserves the invariant, whatever it answers. -/
@@ -201,11 +201,11 @@ theorem elementUnwrap_inv {f : Forest} (hi : f.Inv) (node : Nat) : (f.elementUnw
           | nil => intro X Y h; exact h
           | cons fr0 rest ih =>
             intro X Y h
-            simp only [plug_cons, handlesList_append, handlesList_cons, handles_node]
+            simp only [plug_cons, fi_handlesList_append, handlesList_cons, handles_node]
             exact List.Sublist.append_left (List.Sublist.append_right (List.Sublist.cons_cons _ (ih X Y h)) _) _
         apply key
         rw [hl0]
-        simp only [handlesList_append, handlesList_cons, handles_setValue, handlesList_nil,
+        simp only [fi_handlesList_append, handlesList_cons, handles_setValue, handlesList_nil,
           List.append_nil, List.append_assoc]
         refine List.Sublist.append_left (List.Sublist.append_left ?_ _) _
         exact List.sublist_append_right _ _
@@ -224,7 +224,7 @@ theorem elementUnwrap_inv {f : Forest} (hi : f.Inv) (node : Nat) : (f.elementUnw
       have hp1 : (handlesList (l0 ++ Pl.setValue (.text (ps ++ fs)) :: (nk' ++ r)) ++ [F.handle]).Perm
           (handlesList (l ++ (F :: nk') ++ r)) := by
         rw [hl0]
-        simp only [handlesList_append, handlesList_cons, handles_setValue, handles_eq F, hFkids,
+        simp only [fi_handlesList_append, handlesList_cons, handles_setValue, fi_handles_eq F, hFkids,
           handlesList_nil, List.append_nil, List.append_assoc, List.cons_append, List.nil_append]
         refine List.Perm.append_left _ (List.Perm.append_left _ ?_)
         rw [← List.append_assoc]
@@ -242,7 +242,7 @@ theorem elementUnwrap_inv {f : Forest} (hi : f.Inv) (node : Nat) : (f.elementUnw
         obtain ⟨hnk'e, _, hFL⟩ := single_of_first_eq_last hnk2 (by rw [hFh, hLh]; exact hfl2) (by
           have h1 : (handlesList (plug (init ++ [fr]) (l ++ (F :: nk') ++ r))).Nodup := nd1
           have h2 := (List.nodup_append.mp (nodup_plug.mp h1)).2.1
-          rw [handlesList_append, handlesList_append] at h2
+          rw [fi_handlesList_append, fi_handlesList_append] at h2
           exact (List.nodup_append.mp (List.nodup_append.mp h2).1).2.1)
         subst hnk'e
         simp only [List.nil_append] at *
